@@ -174,7 +174,7 @@ type Entry struct {
 	Version int16
 	Req     protocol.Message
 	Time    time.Time
-	First   bool // first request on its connection (the ApiVersions handshake of a Transport connection)
+	First   bool   // first request on its connection (the ApiVersions handshake of a Transport connection)
 	Addr    string // the address that was dialled for the connection the request arrived on
 }
 
@@ -203,7 +203,7 @@ type Cluster struct {
 	journal    []Entry
 	connSeq    int
 	metaServed int
-	lastMeta   *metadata.Response // last full (unfiltered request) metadata answer
+	lastMeta   *metadata.Response // last answer to a refresh of the transport (all topics, or its configured MetadataTopics)
 	conns      map[int]connInfo
 }
 
@@ -519,7 +519,7 @@ func (c *Cluster) handle(broker int32, ver int16, msg protocol.Message) protocol
 		}
 		res := c.MetadataAnswer(append([]string{}, m.TopicNames...), all)
 		c.metaServed++
-		if all {
+		if all || !m.AllowAutoTopicCreation { // the transport's own refresh (never auto-creating): its answer is the cache
 			c.lastMeta = res
 		}
 		return res
